@@ -413,6 +413,45 @@ func c19Render(decs []string) string {
 		if !sameStrings(got, want) {
 			return fmt.Sprintf("%s: All() = %q but rendered comments are %q", t.Name, want, got)
 		}
+		// the same list with comments that span two lines, rendered by a Restorer whose file set
+		// already holds a file (the second file of a package, a caller-supplied file set)
+		var ml []string
+		for _, x := range decs {
+			if strings.HasPrefix(x, "/*") {
+				x = strings.TrimSuffix(x, "*/") + "\nsecond line */"
+			}
+			ml = append(ml, x)
+		}
+		d.Replace(ml...)
+		want = d.All()
+		r := decorator.NewRestorer()
+		r.Fset = token.NewFileSet()
+		r.Fset.AddFile("other.go", -1, 1000)
+		buf.Reset()
+		var perr error
+		if msg := guard(func() { perr = r.Fprint(&buf, f) }); msg != "" || perr != nil {
+			return fmt.Sprintf("%s: rendering %q into a file set that already holds a file fails: %s %v", t.Name, want, msg, perr)
+		}
+		af, err = parser.ParseFile(token.NewFileSet(), "", buf.Bytes(), parser.ParseComments)
+		if err != nil {
+			return t.Name + ": printed text does not parse: " + err.Error()
+		}
+		got = nil
+		norm := func(x string) string { return reCont.ReplaceAllString(x, "\n") }
+		for _, cg := range af.Comments {
+			for _, cm := range cg.List {
+				if cm.Text != "// fixed" {
+					got = append(got, norm(cm.Text))
+				}
+			}
+		}
+		var wantN []string
+		for _, x := range want {
+			wantN = append(wantN, norm(x))
+		}
+		if !sameStrings(got, wantN) {
+			return fmt.Sprintf("%s: All() = %q but rendered comments (second file of a file set) are %q", t.Name, want, got)
+		}
 	}
 	return ""
 }
